@@ -420,5 +420,5 @@ def run(ctx):
         ctx.extra["exhaustive_n_le_3"] = False
     done_4 = ctx.enumerate("graph", n4_payloads(ctx), case_graph)
     ctx.extra["exhaustive_n_eq_4"] = bool(done_4 and ctx.tier == "thorough" and not ctx.extra.get("exhaustive_interrupted"))
-    ctx.drive("graph_random", random_graphs(), case_graph, quick=400, thorough=6000)
-    ctx.drive("composition", systems(), case_composition, quick=350, thorough=4000)
+    ctx.drive("graph_random", random_graphs(), case_graph, quick=400, thorough=4000)
+    ctx.drive("composition", systems(), case_composition, quick=350, thorough=2500)
